@@ -181,10 +181,22 @@ def run(R):
     arms = {}
     default_raise = []
 
+    class _Rest(object):
+        def __init__(self, body, orelse=()):
+            self.body = list(body)
+            self.orelse = list(orelse)
+
     def collect(stmts):
-        for s_ in stmts:
+        for idx_, s_ in enumerate(stmts):
             if isinstance(s_, ast.If):
                 k, subj, pos = q.atom_test(s_.test)
+                neg_kind = (k == "isinstance" and subj[0] == par and not pos) or (k == "isnone" and subj == par and not pos)
+                if neg_kind and not s_.orelse and s_.body and isinstance(s_.body[-1], (ast.Raise, ast.Return)):
+                    # guard clause: `if <not the kind>: <leave>` - what follows is the arm for the kind, the guarded body is what the
+                    # chain would have reached after it
+                    arms[subj[1] if k == "isinstance" else "None"] = _Rest(stmts[idx_ + 1:])
+                    collect(s_.body)
+                    return
                 if k == "isinstance" and subj[0] == par and pos:
                     arms[subj[1]] = s_
                 elif k == "isnone" and subj == par and pos:
